@@ -354,6 +354,8 @@ def c11_check_term(case: dict, obs: dict) -> str | None:
     if obs["kind"] != "ok" or case["cfg"][0] != "eigen" or case["is_diag"] or case["p"] <= 0 or case["eps"] <= 0:
         return None
     n = case_n(case)
+    if obs["X"].numel() != n * n or len(case["A"]) != n * n:
+        return None          # not a square input / output: handled by the shape-guard comparison
     X = obs["X"].reshape(n, n)
     A = torch.tensor(case["A"], dtype=torch.float64).reshape(n, n)
     if n == 1:           # numel == 1 fast path: no eigh call; the 1x1 decomposition is (a, [[1]])
